@@ -129,6 +129,10 @@ structure Cfg where
   /-- a missing `/sys/class/power_supply` (`os.listdir` raises FileNotFoundError) is answered with
       `None` (the listing is guarded / the error is caught) instead of leaving `sensors_battery()` -/
   noDirNone : Bool
+  /-- cpu_freq (sysfs variant): the `online` file probed for a policy without any frequency file is
+      `cpu{i}/online` with `i` the POSITION in the sorted list (as found); `false` = the CPU the
+      directory is numbered after (what a maintainer would repair it to) -/
+  probeByPosition : Bool
 
 /-! ## hwmon temperatures -/
 
@@ -637,7 +641,7 @@ def policyLoop (cfg : Cfg) (online : List (Nat × FileState)) (infos : Option (L
     Nat → List Policy → Res (List Freq)
   | _, [] => .ok []
   | i, p :: ps =>
-    match policyFreq cfg online i (infoAt infos i) p with
+    match policyFreq cfg online (if cfg.probeByPosition then i else p.n) (infoAt infos i) p with
     | .error e => .error e
     | .ok f =>
       match policyLoop cfg online infos (i + 1) ps with
